@@ -70,6 +70,22 @@ Theorem C03_writer_sound_native : forall cfg user evs,
 Proof. exact writer_sound_native. Qed.
 Print Assumptions C03_writer_sound_native.
 
+(* ---- lxml writer: inside the guard and the modelled domain of the lxml sink, the tree it
+   builds says what the events say *)
+Theorem C03_writer_sound_lxml : forall cfg user evs,
+  writer_guard cfg user evs = true -> lxml_domain cfg user evs = true ->
+  exists e t, expected cfg evs = Some e /\ run_lxml cfg user evs = inl t /\ doc_says e t = true.
+Proof. exact writer_sound_lxml. Qed.
+Print Assumptions C03_writer_sound_lxml.
+
+(* ---- both writers: the tree lxml builds IS the infoset the XML reader resolves from the
+   native writer's text (writer half of C08) *)
+Theorem C03_sinks_agree : forall cfg user evs,
+  writer_guard cfg user evs = true -> lxml_domain cfg user evs = true ->
+  exists d t, run_native cfg user evs = inl d /\ resolve d = Some t /\ run_lxml cfg user evs = inl t.
+Proof. exact sinks_agree. Qed.
+Print Assumptions C03_sinks_agree.
+
 (* ---- the unguarded statement is false of the faithful model; one witness per guard clause *)
 Theorem C03_native_sound_unguarded_refuted : ~ (forall cfg user evs, native_sound_b cfg user evs = true).
 Proof. exact native_sound_unguarded_refuted. Qed.
